@@ -23,6 +23,7 @@ META = {
     "trusted_base": ["imbl::Vector panics on out-of-range insert/set/remove without modifying", "rustc borrow checker", "rustc MIR construction"],
     "assumptions": [],
 }
+META["explanation"] += " R17.3's drop clause requires the increment on every path from the Borrowed edge (no early return, e.g. while panicking)."
 
 FAMILIES = [
     ("vector", "vector::ObservableVector<", "vector::entry::ObservableVectorEntry<", "vector::entry::ObservableVectorEntries<"),
